@@ -25,8 +25,8 @@ def rel(steps):
 
 
 PROPS = {
-    "C01": dict(trace_gen="C02", oracle="C01", relevant=rel({s: set() for s in range(0, 9)}),
-                n_trace=dict(quick=160, thorough=1200), n_search=dict(quick=1500, thorough=40000)),
+    "C01": dict(trace_gen="C02", oracle="C01", relevant=rel({s: set() for s in list(range(0, 9)) + [15, 16]}),
+                trace_env={"VH_DEEP": "1"}, n_trace=dict(quick=96, thorough=800), n_search=dict(quick=1500, thorough=40000)),
     "C02": dict(trace_gen="C02", oracle="C02",
                 relevant=rel({0: STRUCT | SIZE | {50}, 1: COMP, 2: STRUCT, 3: STRUCT, 5: STRUCT, 7: STRUCT | ROUTE, 8: STRUCT | ROUTE | SIZE, 9: {1, 2}}),
                 n_trace=dict(quick=200, thorough=2000), n_search=dict(quick=3000, thorough=60000)),
@@ -39,8 +39,8 @@ PROPS = {
                 n_trace=dict(quick=200, thorough=2000), n_search=dict(quick=3000, thorough=60000)),
     "C06": dict(trace_gen="C06", oracle="C06", relevant=rel({5: STRUCT | LAYER | POS, 6: XY, 7: ROUTE | STRUCT, 9: {1, 2}}),
                 n_trace=dict(quick=160, thorough=1500), n_search=dict(quick=3000, thorough=60000)),
-    "C07": dict(trace_gen="C07", oracle="C07", relevant=rel({s: ALLF | COMP for s in range(0, 10)}),
-                n_trace=dict(quick=120, thorough=1000), n_search=dict(quick=1500, thorough=20000)),
+    "C07": dict(trace_gen="C07", oracle="C07", relevant=rel({s: ALLF | COMP | {0} for s in list(range(0, 10)) + [13, 15, 16]}),
+                trace_env={"VH_DEEP": "1"}, n_trace=dict(quick=96, thorough=800), n_search=dict(quick=1500, thorough=20000)),
     "C08": dict(trace_gen="C08", oracle="C08", relevant=rel({0: ALLF | {50}}),
                 n_trace=dict(quick=200, thorough=2000), n_search=dict(quick=2500, thorough=40000)),
     "C09": dict(trace_gen="C09", oracle="C09", relevant=rel({0: STRUCT, 1: COMP, 9: {1, 2}}),
@@ -49,10 +49,10 @@ PROPS = {
                 n_trace=dict(quick=200, thorough=2000), n_search=dict(quick=1500, thorough=20000)),
     "C11": dict(trace_gen="C11", oracle="C11", relevant=rel({3: STRUCT, 4: LAYER}),
                 n_trace=dict(quick=200, thorough=2000), n_search=dict(quick=3000, thorough=60000)),
-    "C12": dict(trace_gen="C12", oracle="C12", relevant=rel({5: POS | STRUCT, 6: XY, 7: ROUTE, 9: {1, 2}, 13: {0}}),
-                n_trace=dict(quick=160, thorough=1500), n_search=dict(quick=1500, thorough=30000)),
-    "C13": dict(trace_gen="C13", oracle="C13", relevant=rel({4: LAYER, 5: POS | STRUCT, 13: {0}}),
-                n_trace=dict(quick=160, thorough=1500), n_search=dict(quick=2000, thorough=40000)),
+    "C12": dict(trace_gen="C12", oracle="C12", relevant=rel({5: POS | STRUCT, 6: XY, 7: ROUTE, 9: {1, 2}, 13: {0, 1}, 15: ALLF | {0}, 16: {2, 3, 4}}),
+                trace_env={"VH_DEEP": "1"}, n_trace=dict(quick=96, thorough=800), n_search=dict(quick=1500, thorough=30000)),
+    "C13": dict(trace_gen="C13", oracle="C13", relevant=rel({4: LAYER, 5: POS | STRUCT, 13: {0, 1}, 15: ALLF | {0}, 16: {4}}),
+                trace_env={"VH_DEEP": "1"}, n_trace=dict(quick=96, thorough=800), n_search=dict(quick=2000, thorough=40000)),
     "C14": dict(trace_gen="C14", oracle="C14", relevant=rel({2: STRUCT, 3: STRUCT, 8: STRUCT}),
                 n_trace=dict(quick=200, thorough=2000), n_search=dict(quick=3000, thorough=60000)),
     "C15": dict(level="proof", oracle="C15", n_search=dict(quick=150, thorough=3000), race=True),
